@@ -124,7 +124,7 @@ def ds_strategy(tier):
     def s(draw):
         flavor = draw(st.sampled_from(["prob", "prob", "full", "ens"]))
         spec = draw(gen.dataset(max_inputs=2, clim=False, flavor=flavor, core_max=3, extra_max=1, allow_drop=False,
-                                max_members=4, allow_all_missing=False))
+                                max_members=4, allow_all_missing=False, allow_crossing=True))
         metrics = draw(st.lists(st.sampled_from(DS_METRICS), min_size=6, max_size=6, unique=True))
         b = draw(st.sampled_from(model.BIN_TYPES))
         stored = draw(st.booleans())
